@@ -37,14 +37,15 @@ use garde::Validate;
 use validator::Validate as ValidatorValidate;
 
 /// A document that the multi-document entry points skip: an empty / null-like plain scalar.
-/// A scalar that is a string by its tag (`!!str null`, `!!str ~`) or a `!!binary` payload is a
-/// value, as it is for the single-document entry points.
+/// A scalar that carries another tag than `!!null` is a value, as it is for the single-document
+/// entry points: the strings `!!str null` and `!!str ~`, a `!!binary` payload, a tag-selected
+/// enum variant without payload (`--- !Variant`).
 fn is_null_document(
     value: &str,
     style: &saphyr_parser::ScalarStyle,
     tag: &crate::tags::SfTag,
 ) -> bool {
-    !matches!(tag, crate::tags::SfTag::String | crate::tags::SfTag::Binary)
+    matches!(tag, crate::tags::SfTag::None | crate::tags::SfTag::Null)
         && scalar_is_nullish(value, style)
 }
 
